@@ -29,7 +29,7 @@ type TypeHelper[T any] interface {
 
 func helperNew[T any](helper TypeHelper[T], value T) T {
 	if helper == nil {
-		if t := reflect.TypeOf(value); t.Kind() == reflect.Ptr {
+		if t := reflect.TypeOf(value); t != nil && t.Kind() == reflect.Ptr {
 			return reflect.New(t.Elem()).Interface().(T)
 		}
 		var newValue T
